@@ -2,7 +2,7 @@
    (op, ints, byte strings, impl-output tokens); the answer is a token list.
    Ops < 100 run the model; ops >= 100 are property oracles applied to what the
    implementation returned for the same case (out). *)
-From Verif Require Import Base Consts Packet PacketSpec OpenSpec Errors Update UpdateSpec UpdateOracles Server ServerSpec.
+From Verif Require Import Base Consts Packet PacketSpec OpenSpec Errors Update UpdateSpec UpdateOracles Server ServerSpec Conn.
 From Coq Require Import ZArith.
 
 Definition nthN (l : list N) (i : nat) : N := nth i l 0.
@@ -148,6 +148,71 @@ Fixpoint spec_delays (gaps : list N) (k : nat) (first : bool) : list N :=
 Fixpoint times_of (gaps : list N) (t : N) : list N :=
   match gaps with [] => [] | g :: r => (t + g) :: times_of r (t + g) end.
 
+(* ---- connection scenarios ---- *)
+Definition tok_errclass (e : errclass) : list N :=
+  match e with
+  | ENone => [0]
+  | ENotifOut n => [1; n_code n; n_sub n]
+  | ENotifIn n => [2; n_code n; n_sub n]
+  | EOtherErr => [3]
+  end.
+Definition tok_frame (b : bytes) : list N :=
+  (* a written message as the remote's strict parser sees it: type and body; 0 if malformed *)
+  match spec_frame_parse b with
+  | Some (t, body) => 1 :: t :: tok_bytes body
+  | None => 1 :: 0 :: tok_bytes b
+  end.
+Definition tok_action (a : caction) : list N :=
+  match a with
+  | AWrite b => tok_frame b
+  | AOnOpen id caps => 2 :: 1 :: id :: tok_caps caps
+  | AOnEstablished => [2; 2]
+  | AHandler b => 2 :: 3 :: tok_bytes b
+  | AOnClose => [2; 4]
+  | ACloseConn => [3]
+  | AReturn d e => 4 :: d :: tok_errclass e
+  | _ => []
+  end.
+
+Fixpoint take_notifs (k : nat) (ints : list N) (bs : list bytes) : list (option notif) * list N * list bytes :=
+  match k with
+  | O => ([], ints, bs)
+  | S k' =>
+      match ints, bs with
+      | flag :: c :: sb :: ir, d :: br =>
+          let '(l, ir', br') := take_notifs k' ir br in
+          ((if flag =? 0 then None else Some (mkNotif c sb d)) :: l, ir', br')
+      | _, _ => ([], ints, bs)
+      end
+  end.
+
+Definition conn_scenario (ints : list N) (bs : list bytes) : list N :=
+  match ints, bs with
+  | lid :: las :: ras :: hold :: eof :: stop_after :: of :: oc :: os :: nh :: ir, stream :: od :: br =>
+      let '(hs, ir1, br1) := take_notifs (N.to_nat nh) ir br in
+      match ir1 with
+      | nw :: ir2 =>
+          let writes := firstn (N.to_nat nw) br1 in
+          let br2 := skipn (N.to_nat nw) br1 in
+          let caps := match ir2 with _ :: codes => zip_caps codes br2 | [] => [] end in
+          let cf := mkConf lid las ras hold in
+          let pl := mkPlug (if of =? 0 then None else Some (mkNotif oc os od))
+                           (fun k => nth k hs None) writes in
+          let evs := read_stream stream (negb (eof =? 0)) in
+          (* the harness always closes the server at the end: a final stop request *)
+          let ins := map IRd (firstn (N.to_nat stop_after) evs)
+                     ++ (if stop_after <? 9999 then [IStop] else map IRd (skipn (N.to_nat stop_after) evs) ++ [IStop]) in
+          let first := send_open cf lid caps in
+          match first with
+          | AWrite _ :: _ =>
+              flat_map tok_action first ++ flat_map tok_action (snd (conn_run_auto cf pl cinit ins))
+          | _ => flat_map tok_action first
+          end
+      | [] => [998]
+      end
+  | _, _ => [998]
+  end.
+
 Definition run_model (op : N) (ints : list N) (bs : list bytes) : list N :=
   match op with
   | 1 => tok_bytes (notif_encode (mkNotif (nthN ints 0) (nthN ints 1) (nthB bs 0)))
@@ -268,6 +333,7 @@ Definition run_model (op : N) (ints : list N) (bs : list bytes) : list N :=
           end
   | 43 => damp_run damp_init (times_of ints 1000000000000)
   | 44 => [tok_bool (new_server_ok (mkAddr (akind_of (nthN ints 0)) (nthN ints 1)))]
+  | 60 => conn_scenario ints bs
   | _ => [999]
   end.
 
